@@ -157,7 +157,7 @@ static std::string doTrain(std::vector<std::string> const& t){
 	trainer.sparsify() = false;
 	trainer.shrinking() = shrink;
 	trainer.stoppingCondition().minAccuracy = eps;
-	trainer.stoppingCondition().maxIterations = 20000000ULL;
+	trainer.stoppingCondition().maxIterations = 2000000ULL;
 	if(cache < 0) trainer.precomputeKernel() = true; else trainer.setCacheSize((std::size_t)cache);
 	KernelClassifier<RealVector> svm;
 	trainer.train(svm, data);
@@ -186,7 +186,7 @@ static std::string doTrain(std::vector<std::string> const& t){
 		// two-class reduction: every formulation must give exactly the plain binary machine
 		CSvmTrainer<RealVector, double> bin(kernel, C, bias);
 		bin.sparsify() = false; bin.shrinking() = shrink;
-		bin.stoppingCondition().minAccuracy = eps; bin.stoppingCondition().maxIterations = 20000000ULL;
+		bin.stoppingCondition().minAccuracy = eps; bin.stoppingCondition().maxIterations = 2000000ULL;
 		if(cache < 0) bin.precomputeKernel() = true; else bin.setCacheSize((std::size_t)cache);
 		KernelClassifier<RealVector> bsvm; bin.train(bsvm, data);
 		RealMatrix const& B = bsvm.decisionFunction().alpha();
@@ -210,7 +210,7 @@ static std::string doTrain(std::vector<std::string> const& t){
 			ClassificationDataset bd = oneVersusRestProblem(data, c);
 			CSvmTrainer<RealVector, double> bin(kernel, C, bias);
 			bin.sparsify() = false; bin.shrinking() = shrink;
-			bin.stoppingCondition().minAccuracy = eps; bin.stoppingCondition().maxIterations = 20000000ULL;
+			bin.stoppingCondition().minAccuracy = eps; bin.stoppingCondition().maxIterations = 2000000ULL;
 			if(cache < 0) bin.precomputeKernel() = true; else bin.setCacheSize((std::size_t)cache);
 			KernelClassifier<RealVector> bsvm; bin.train(bsvm, bd);
 			RealMatrix const& B = bsvm.decisionFunction().alpha();
@@ -241,7 +241,9 @@ static std::string doTrain(std::vector<std::string> const& t){
 			double s = 0;
 			for(std::size_t p = 0; p != P; ++p){
 				double a = alpha(i,p); s += a;
-				if(a < 0 || a > C) orc << " !oracle box-constraint i=" << i << " p=" << p << " a=" << g17(a);
+				// box solver: clipping is exact; simplex solver: the upper bound is C - varsum + alpha with an accumulated
+				// varsum, so alpha may exceed C by a few ulps (observed: 2.0000000000000004 for C = 2): same slack as for the sum
+				if(a < 0 || a > C + (simplex ? slack * P : 0.0)) orc << " !oracle box-constraint i=" << i << " p=" << p << " a=" << g17(a);
 			}
 			if(simplex && s > C + slack * P) orc << " !oracle simplex-constraint i=" << i << " sum=" << g17(s);
 		}
